@@ -1364,10 +1364,9 @@ class Staircase(Pbox):
             the pbox should not straddle zero, otherwise a warning is raised
         """
 
-        if self.straddles_zero():
-            warnings.warn(
-                "Division of a pbox straddling zero needs attention", UserWarning
-            )
+        if self.lo <= 0 <= self.hi:
+            # 1/x is unbounded on a support containing zero (same rule as Interval division)
+            raise ZeroDivisionError("reciprocal of a p-box whose support contains zero")
         return Staircase(left=1 / np.flip(self.right), right=1 / np.flip(self.left))
 
     def log(self):
